@@ -44,7 +44,7 @@ func c17Grammars(tier string) []*corpus.Grammar {
 	if tier == "thorough" {
 		return all
 	}
-	want := map[string]bool{"calc": true, "errdeep": true, "usercontext": true, "nullable": true, "deep": true, "lexonly": true, "sr": true, "stmtexpr": true, "nolexer": true}
+	want := map[string]bool{"calc": true, "errdeep": true, "usercontext": true, "nullable": true, "deep": true, "lexonly": true, "sr": true, "stmtexpr": true, "nolexer": true, "scripts": true, "keywords": true}
 	var out []*corpus.Grammar
 	for _, g := range all {
 		if want[g.ID] {
